@@ -239,7 +239,7 @@ type fmt = {
   decode : z list -> ref_result;
   decode_stream : z list -> int -> [ `Values of cvalue list | `Unsupported | `Truncated of cvalue list | `Malformed | `Stop ];
   parse : string -> int -> z list list -> string;  (* mode vfail chunks -> "EV ... R ..." *)
-  dec : string -> int -> (z list * z) list -> string;
+  dec : string -> int -> (z list * z) list -> int -> string;  (* kind nexts script vfail *)
   cprop : string;   (* conformance property of the parser *)
   idle : string;
   equiv : cvalue -> cvalue -> bool;   (* expected (img) vs decoded value *)
@@ -274,20 +274,21 @@ let generic_stream (decode : z list -> ref_result) (sep_ok : z list -> z list) (
   walk doc [] fuel
 
 (* decoder model loop shared by formats: next : state -> (state', events, err) res *)
-let dec_loop (next : 'd -> (('d * event list) * z) res) (d0 : 'd) (nexts : int) : string =
+let dec_loop (next : 'd -> nat option -> (('d * event list) * z) res) (d0 : 'd) (nexts : int) (vfail : int) : string =
   let b = Buffer.create 256 in
-  let rec go d i =
+  let rec go d i seen =
     if i < nexts then begin
-      match next d with
+      let fo = if vfail < 0 then None else Some (nat_of_int (max 0 (vfail - seen))) in
+      match next d fo with
       | Ok ((d', evs), err) ->
           Buffer.add_string b (Printf.sprintf "EV %s R %s ; " (toks_of_events evs) (verdict_of_err err));
-          if int_of_z err = -1 then go d' (i + 1)
+          if int_of_z err = -1 then go d' (i + 1) (seen + List.length evs)
       | Panic _ -> Buffer.add_string b "EV . R PANIC ; "
       | OutOfFuel -> Buffer.add_string b "EV . R HANG ; "
       | Err _ -> Buffer.add_string b "EV . R MODELERR ; "
     end
   in
-  go d0 0;
+  go d0 0 0;
   String.trim (Buffer.contents b)
 
 let script_total script = List.fold_left (fun a (b, _) -> a + List.length b) 0 script
@@ -307,14 +308,14 @@ let cbor_fmt : fmt = {
         else if mode = "R" || mode = "E" then run_chunks (fail_opt vfail) (List.filter (fun c -> c <> []) chunks)
         else run_chunks (fail_opt vfail) chunks in
       res_obs (match r with Ok x -> Ok (x, ()) | Panic w -> Panic w | OutOfFuel -> OutOfFuel | Err e -> Err e));
-  dec = (fun kind nexts script ->
+  dec = (fun kind nexts script vfail ->
       let d0 =
         if kind = "B" then { d_p = cparser0; d_buf = List.concat (List.map fst script); d_script = []; d_bytesdec = true }
         else { d_p = cparser0; d_buf = []; d_script = script; d_bytesdec = false } in
       let fuel = nat_of_int (2 * script_total script + List.length script + 8) in
-      dec_loop (fun d -> match dec_next fuel d (sink0 None) with
+      dec_loop (fun d fo -> match dec_next fuel d (sink0 fo) with
           | Ok ((d', s), err) -> Ok ((d', s_log s), err)
-          | Panic w -> Panic w | OutOfFuel -> OutOfFuel | Err e -> Err e) d0 nexts);
+          | Panic w -> Panic w | OutOfFuel -> OutOfFuel | Err e -> Err e) d0 nexts vfail);
   cprop = "C05";
   idle = "0 0 0";
   equiv = cvalue_eqb;
@@ -369,14 +370,14 @@ let ubj_fmt : fmt = {
         else if mode = "R" || mode = "E" then urun_chunks (fail_opt vfail) (List.filter (fun c -> c <> []) chunks)
         else urun_chunks (fail_opt vfail) chunks in
       ubj_obs3 r);
-  dec = (fun kind nexts script ->
+  dec = (fun kind nexts script vfail ->
       let d0 =
         if kind = "B" then { ud_p = uparser0; ud_buf = List.concat (List.map fst script); ud_script = []; ud_bytesdec = true }
         else { ud_p = uparser0; ud_buf = []; ud_script = script; ud_bytesdec = false } in
       let fuel = nat_of_int (2 * script_total script + List.length script + 8) in
-      dec_loop (fun d -> match udec_next fuel d (sink0 None) with
+      dec_loop (fun d fo -> match udec_next fuel d (sink0 fo) with
           | Ok ((d', s), err) -> Ok ((d', s_log s), err)
-          | Panic w -> Panic w | OutOfFuel -> OutOfFuel | Err e -> Err e) d0 nexts);
+          | Panic w -> Panic w | OutOfFuel -> OutOfFuel | Err e -> Err e) d0 nexts vfail);
   cprop = "C06";
   idle = "0 0 0";
   equiv = cvalue_eqb;
@@ -501,14 +502,14 @@ let json_fmt : fmt = {
         else if mode = "R" || mode = "E" then jrun_chunks parse_float_oracle (fail_opt vfail) (List.filter (fun c -> c <> []) chunks)
         else jrun_chunks parse_float_oracle (fail_opt vfail) chunks in
       json_obs3 r);
-  dec = (fun kind nexts script ->
+  dec = (fun kind nexts script vfail ->
       let d0 =
         if kind = "B" then { jd_p = jparser0; jd_buf = List.concat (List.map fst script); jd_script = []; jd_bytesdec = true }
         else { jd_p = jparser0; jd_buf = []; jd_script = script; jd_bytesdec = false } in
       let fuel = nat_of_int (2 * script_total script + List.length script + 8) in
-      dec_loop (fun d -> match jdec_next fuel parse_float_oracle d (sink0 None) with
+      dec_loop (fun d fo -> match jdec_next fuel parse_float_oracle d (sink0 fo) with
           | Ok ((d', s), err) -> Ok ((d', s_log s), err)
-          | Panic w -> Panic w | OutOfFuel -> OutOfFuel | Err e -> Err e) d0 nexts);
+          | Panic w -> Panic w | OutOfFuel -> OutOfFuel | Err e -> Err e) d0 nexts vfail);
   cprop = "C04";
   idle = "0 1 0";   (* state stack empty, start state, literal buffer empty *)
   equiv = json_equiv;
@@ -776,10 +777,11 @@ let script_of_toks ts =
 let dec_case (f : fmt) (input : string) (obs0 : string) : verdict =
   let obs, flagl = split_flags_all obs0 in
   match words input with
-  | kind :: _bufsize :: nexts :: script ->
+  | kind :: _bufsize :: nexts :: vfail :: script ->
       let nexts = int_of_string nexts in
+      let vfail = int_of_string vfail in
       let script = script_of_toks script in
-      let model = f.dec kind nexts script in
+      let model = f.dec kind nexts script vfail in
       let doc = List.concat (List.map fst script) in
       let oracle = ref [] in
       let calls = List.filter (fun s -> String.trim s <> "") (Str.split (Str.regexp_string " ; ") (obs ^ " ")) in
@@ -792,7 +794,15 @@ let dec_case (f : fmt) (input : string) (obs0 : string) : verdict =
             | Some r -> (match ref_values r with `Values v -> `Values v | _ -> `Other)
             | None -> `Other)
         else (match f.decode_stream doc 64 with `Values v -> `Values v | `Truncated x -> `Truncated x | _ -> `Other) in
-      (match stream with
+      (if vfail >= 0 then begin
+         let total = List.fold_left (fun a (evs, _) -> a + List.length evs) 0 calls in
+         if total > vfail + 1 then oracle := ("C16", "the decoder delivered events after the visitor failed") :: !oracle;
+         (match List.rev calls with
+          | (_, v) :: _ when total = vfail + 1 && v <> "inj" ->
+              oracle := ("C16", "the visitor failed on the last event delivered but Next returned " ^ v) :: !oracle
+          | _ -> ())
+       end);
+      (match (if vfail >= 0 then `Other else stream) with
       | `Values want ->
           let k = List.length want in
           if nexts > k then begin
